@@ -201,8 +201,28 @@ Definition underlying_ok (f : nat) (w : world FN) (q : kq FN) (s t : nat) : bool
   is_ok (search FN f w q Forward s t)
   && match kq_alg FN q with KSingleVia => is_ok (search FN f w q Reverse t s) | KYens => true end.
 
-Definition check_case_gen (fold : bool) (mfuel : option nat) (w : world FN) (q : kq FN) (simq : simfn Q)
-           (pi : list (option float)) (optimal : bool) (o : outcome FN) (aa : nat) : option string :=
+(* turn costs only: an access model that charges turns, no frontier table, no failing edge *)
+Definition turn_costs_only (w : world FN) : bool :=
+  match w_turn FN w, w_forbid FN w, w_fturn FN w, w_ferr FN w, w_terr FN w with
+  | _ :: _, [], [], [], [] => true
+  | _, _, _, _, _ => false
+  end.
+(* accumulated cost at which the forward tree (first tree of the outcome) reaches t *)
+Definition tree_cost (wq : world QN) (o : outcome FN) (t : nat) : option Q :=
+  match o_trees FN o with
+  | tf :: _ =>
+      match find (fun x => let '(v, _, _, _, _, _) := x in Nat.eqb v t) tf with
+      | Some (_, _, _, _, _, st) => Some (Q_of_float st - w_init QN wq)%Q
+      | None => None
+      end
+  | [] => None
+  end.
+
+(* [pie]: with turn costs the objective depends on the previous edge, so the certificate is a potential on EDGES
+   ([] = none supplied: the clause is not judged).  The clause is judged only on worlds where it is unambiguous:
+   the underlying vertex-labelling search itself reached the destination at the certified least total cost. *)
+Definition check_case_gen (fold : bool) (mfuel : option nat) (pie : list (option float)) (w : world FN) (q : kq FN)
+           (simq : simfn Q) (pi : list (option float)) (optimal : bool) (o : outcome FN) (aa : nat) : option string :=
   let wq := worldQ w in
   let g := graph_of FN w in
   let costq := w_cost QN wq in
@@ -241,6 +261,17 @@ Definition check_case_gen (fold : bool) (mfuel : option nat) (w : world FN) (q :
                          else if optimal && edge_local w
                                  && negb (match rs with r0 :: _ => Qeq_bool (route_sum costq r0) dt | [] => false end)
                               then Some "first route is not least-cost"
+                         else if optimal && turn_costs_only w && negb (match pie with [] => true | _ => false end)
+                                 && (let pieq := map (fun x => match x with Some f => Some (Q_of_float f) | None => None end) pie in
+                                     let turnf := turn_of (w_turn QN wq) in
+                                     let into_t := potentials_into (w_edges FN w) pieq t in
+                                     if negb (check_edge_potential (w_edges FN w) costq turnf s pieq) then true
+                                     else match tree_cost wq o t, rs with
+                                          | Some ct, r0 :: _ =>
+                                              at_most_all ct into_t && negb (at_most_all (route_total costq turnf None r0) into_t)
+                                          | _, _ => false
+                                          end)
+                              then Some "first route is not least-cost (total cost with turn costs)"
                          else if Nat.ltb aa (List.length rs) then Some "AcceptAll returns fewer routes"
                          else None
                      end
@@ -249,12 +280,12 @@ Definition check_case_gen (fold : bool) (mfuel : option nat) (w : world FN) (q :
       end
   end.
 
-Definition check_case := check_case_gen true None.
+Definition check_case := check_case_gen true None [].
 
 (* the line of the ksp stream: the fold flag and the model fuel are chosen by the harness *)
-Definition line_SG (fold : bool) (fuel : nat) (id : Z) (w : world FN) (q : kq FN) (simq : simfn Q)
+Definition line_SG (fold : bool) (fuel : nat) (pie : list (option float)) (id : Z) (w : world FN) (q : kq FN) (simq : simfn Q)
            (pi : list (option float)) (optimal : bool) (o : outcome FN) (aa : nat) (detail : nat) : string :=
-  line "S" id (match check_case_gen fold (Some fuel) w q simq pi optimal o aa with
+  line "S" id (match check_case_gen fold (Some fuel) pie w q simq pi optimal o aa with
                | None => show_outcome FN o detail ++ " aa=" ++ show_nat aa
                | Some why => "REJECT(" ++ why ++ ") " ++ show_outcome FN o 0
                end).
